@@ -381,3 +381,7 @@ def check(case):
             case.close(L(params.copy()), before, rtol=0, atol=0,
                        what='log-likelihood after the user changed their model object (outputs reversed, sensitivities on)')
             case.close(L(params.copy()), want, rtol=1e-9, what='log-likelihood after the user changed their model object')
+
+
+RULE += (' Classes and clauses added in later rounds of the seeded-change protocol (DESIGN 9.4) are named in REQUIRED '
+         'and in seeded/HISTORY.json; the evidence counts every one of them under classes.')
